@@ -32,6 +32,8 @@ _SECTION_SETS = [
     ["a.b", "a.c"],
     ["a.b.c", "a.d"],
     ["a.b", "a"],  # a plain section after a dotted section with the same head
+    ["DEFAULT", "a.b"],  # inherited defaults (first entry carries k=v, so a.b sees it through [DEFAULT])
+    ["a.b", "DEFAULT"],  # a default (k2=w) next to a section-local value
 ]
 
 
@@ -69,7 +71,7 @@ def _build(sections, v, w):
     return d
 
 
-def _roundtrip(v: str, w: str, which: int, replace: bool) -> bool:
+def _roundtrip(v: str, w: str, which: int, replace, newdir: str = "/R") -> bool:
     sections = _SECTION_SETS[which]
     try:
         c = C.Config(config_dict=_build(sections, v, w))
@@ -79,13 +81,13 @@ def _roundtrip(v: str, w: str, which: int, replace: bool) -> bool:
     if not replace:
         c2 = C.Config(config_dict=c.get_config_dict())
         return _view(c2) == before
-    d = c.get_config_dict(replace_config_dir="/R")
+    d = c.get_config_dict(replace_config_dir=newdir)
     c2 = C.Config(config_dict=d)
     for name in c.parser.sections():
         for k, eff in c.parser[name].items():
             got = c2.parser[name][k]
             # only values that contain the local config dir are rewritten (and exactly that part of them)
-            want = eff.replace(CONFIG_DIR, "/R") if CONFIG_DIR in eff else eff
+            want = eff.replace(CONFIG_DIR, newdir) if CONFIG_DIR in eff else eff
             if got != want:
                 return False
     return c2.parser.sections() == c.parser.sections()
@@ -107,12 +109,13 @@ def c35_sections(v: str, w: str) -> bool:
     return guard(lambda: _roundtrip(v, w, choose(len(_SECTION_SETS), "sections"), False), v=v, w=w)
 
 
-def c35_replace_dir(v: str) -> bool:
+def c35_replace_dir(v: str, r: str) -> bool:
     """
     pre: len(v) == SL()[0] and v.startswith(SL()[1]) and _in_alpha(v)
+    pre: 1 <= len(r) <= SL()[2] and _in_alpha(r)
     post: _
     """
-    return guard(lambda: _roundtrip(v, "/d/e", 2, True), v=v)
+    return guard(lambda: _roundtrip(v, "/d/e", 2, True, r), v=v, r=r)
 
 
 _Q = [(0, ""), (1, ""), (2, ""), (3, "$"), (3, "/"), (3, "x")]
@@ -123,9 +126,11 @@ CONDITIONS = [
                      "section 'a.b' with options k=v, other=x" % _ALPHA),
     Condition(c35_sections, timeout=150, thorough_timeout=900,
               bounds="section-name sets %r chosen by the solver; len(v) <= 2, len(w) <= 1 over the alphabet" % _SECTION_SETS),
-    Condition(c35_replace_dir, slices=[(2, ""), (3, "/")], thorough_slices=[(2, ""), (3, "/"), (3, "$"), (3, "d"), (4, "/d")],
-              timeout=120, thorough_timeout=900,
-              bounds="get_config_dict(replace_config_dir='/R') with config dir '/d'; value v as for c35_value"),
+    Condition(c35_replace_dir, slices=[(2, "", 2), (3, "/", 1)],
+              thorough_slices=[(2, "", 2), (3, "/", 2), (3, "$", 1), (3, "d", 1), (4, "/d", 2)],
+              timeout=150, thorough_timeout=900,
+              bounds="get_config_dict(replace_config_dir=r) with config dir '/d'; slice = (len v, prefix of v, max len of the "
+                     "symbolic replacement directory r over the same alphabet, so r may contain '$')"),
 ]
 
 
@@ -138,6 +143,7 @@ def replay(cond, args, extra):
         which, w, rep = extra["choices"][0][1], args["w"], False
     else:
         which, w, rep = 2, "/d/e", True
+    newdir = args.get("r", "/R")
     sections = _SECTION_SETS[which]
     try:
         c = C.Config(config_dict=_build(sections, v, w))
@@ -145,12 +151,12 @@ def replay(cond, args, extra):
     except (configparser.Error, ValueError, TypeError) as e:
         return False, "source config unreadable (%s)" % type(e).__name__
     try:
-        ok = _roundtrip(v, w, which, rep)
+        ok = _roundtrip(v, w, which, rep, newdir)
     except Exception as e:
         return True, "v=%r sections=%r: round trip raised %s: %s" % (v, sections, type(e).__name__, e), _classify(v)
     if not ok:
         return True, "v=%r w=%r sections=%r replace=%s: effective values differ after the round trip (before=%r, dict=%r)" % (
-            v, w, sections, rep, before, c.get_config_dict("/R" if rep else None)), _classify(v)
+            v, w, sections, rep, before, c.get_config_dict(newdir if rep else None)), _classify(v)
     return False, "v=%r ok" % (v,)
 
 
